@@ -5,7 +5,9 @@
  * plus one JSON line of statistics on stdout.
  *
  * usage: hrun <mode:serial|par> <ops> <cout> key=value...
- *   keys: seed mseed lps types fan thr spread rng mem t0 threads ckpt period stay budget tterm
+ *   keys: seed mseed lps types fan thr spread rng mem t0 threads ckpt period stay budget tterm tw
+ *   t0: bit 0 = initial events at time stamp 0, bit 1 = V2-only GenModel mode (zero-delay forwards of identical content)
+ *   tw: bit 0 = `twshadow` line (content-level abstract Time Warp machine), bit 1 = `twgshadow` line (instrumented machine, contract V2)
  */
 #define VERIF_OWN_BATCH
 #include "vsched.h"
@@ -682,7 +684,10 @@ int main(int argc, char **argv)
 	GM.thr_spread = argu(argc, argv, "spread", 20);
 	GM.use_rng = argu(argc, argv, "rng", 1);
 	GM.mem_ops = argu(argc, argv, "mem", 1);
-	GM.t0_events = argu(argc, argv, "t0", 0);
+	/* key t0: bit 0 = events at time stamp 0 (the original meaning), bit 1 = V2-only mode (zero-delay forwards of identical
+	 * content, genmodel.h); the model line carries the same two bits in its t0 field */
+	GM.t0_events = argu(argc, argv, "t0", 0) & 1;
+	GM.fwd_tok = (argu(argc, argv, "t0", 0) >> 1) & 1;
 	GM.lib = argu(argc, argv, "lib", 0);
 	GM.live = argu(argc, argv, "live", 0);
 	GM.skew = argu(argc, argv, "skew", 0);
@@ -702,18 +707,23 @@ int main(int argc, char **argv)
 
 	snprintf(rank_model_line, sizeof rank_model_line, "model %llu %u %u %u %u %u %u %u %u %u %u %llu %u",
 	    (unsigned long long)GM.seed, GM.n_lps, GM.n_types, GM.max_fan, GM.thr_base, GM.thr_spread, GM.use_rng, GM.mem_ops,
-	    GM.t0_events, threads, ckpt, (unsigned long long)tterm_q, GM.skew);
+	    GM.t0_events | (GM.fwd_tok << 1), threads, ckpt, (unsigned long long)tterm_q, GM.skew);
 	if(!mode_dist && !mode_rank) {
 		OP("model %llu %u %u %u %u %u %u %u %u %u %u %llu %u", (unsigned long long)GM.seed, GM.n_lps, GM.n_types,
-		    GM.max_fan, GM.thr_base, GM.thr_spread, GM.use_rng, GM.mem_ops, GM.t0_events, threads, ckpt,
+		    GM.max_fan, GM.thr_base, GM.thr_spread, GM.use_rng, GM.mem_ops, GM.t0_events | (GM.fwd_tok << 1), threads, ckpt,
 		    (unsigned long long)tterm_q, GM.skew);
 		RE("model ok");
 		OP("period %llu", (unsigned long long)vperiod);
 		RE("period");
-		if(mode_par && argu(argc, argv, "tw", 0)) {
+		if(mode_par && (argu(argc, argv, "tw", 0) & 1)) {
 			/* ask the re-execution to step the abstract global Time Warp machine alongside (single rank only) */
 			OP("twshadow");
 			RE("twshadow ok");
+		}
+		if(mode_par && (argu(argc, argv, "tw", 0) & 2)) {
+			/* tw=2 (or 3: both): step the INSTRUMENTED machine (Model/TimeWarpG.lean, ghost creation order, contract V2) */
+			OP("twgshadow");
+			RE("twgshadow ok");
 		}
 	}
 
